@@ -283,7 +283,7 @@ def monitor_history(case, results, ev):
                         expect = 'rt:%d:%d:%d' % (nsense, i, j)
                         stop = True
                         break
-                    if o in 'ik' or (o == 'u' and len(specs) == 1):
+                    if o in 'ikIemq' or (o == 'u' and len(specs) == 1):
                         stop = True
                         break
                 if stop:
@@ -384,7 +384,7 @@ def explore(sk, limits, domains, budget, rng=None, walks=0):
 LIM_DFS = {'term': 4, 'cbs': 3, 'sense': 3, 'listen': 2, 'tagact': 1, 'present': 2, 'llcact': 2, 'llcrun': 1,
            'emulate': 1, 'cardstep': 2}
 DOM_DFS = {'sense': 'nfpiu', 'listen': 'nfi', 'tagact': 'tni', 'present': 'nyik', 'llcact': 'fti',
-           'llcrun': [(0, 'r'), (2, 'r'), (1, 'k'), (0, 'i')], 'cardstep': 'bncik'}
+           'llcrun': [(0, 'r'), (2, 'r'), (1, 'k'), (0, 'i'), (1, 'I'), (0, 'e'), (1, 'm'), (0, 'q')], 'cardstep': 'bncik'}
 LIM_WALK = {'term': 12, 'cbs': 12, 'sense': 24, 'listen': 8, 'tagact': 6, 'present': 8, 'llcact': 8, 'llcrun': 4,
             'emulate': 6, 'cardstep': 8}
 
@@ -448,10 +448,10 @@ def history_cases(tier, rng):
                 if rng.random() < 0.7:
                     ts = ts.replace('Z', 'A').replace('d', 'F').replace('a', 'B')
                 iters = rng.choice([None, 0, 1, 2, 3])
-                tab = [''.join(rng.choice('nnnnfpuicsk') for _ in ts) for _ in range(rng.randrange(0, 4))]
+                tab = [''.join(rng.choice('nnnnfpuicskIemq') for _ in ts) for _ in range(rng.randrange(0, 4))]
                 ops.append(['sense', ts, iters, tab])
             elif k < 0.6:
-                ops.append(['listen', rng.choice('ABFPPQZ'), rng.choice('nfffbuik')])
+                ops.append(['listen', rng.choice('ABFPPQZ'), rng.choice('nfffbuikIemq')])
             else:
                 ops.append(['exchange'])
         c = {'ops': ops}
@@ -496,6 +496,20 @@ CORPUS = [
       'cbs': 'TN', 'term': '001'}, 'a Type 1 Tag in the field: the DEP search must not raise, connect() returns None'),
     ({'live': 'dep', 'penv': 't1', 'llcp': {'role': None, 'connect': 1, 'release': 1, 'acm': True, 'brs': 0},
       'cbs': 'TN', 'term': '001'}, 'a Type 1 Tag in the field, both roles, active mode search first'),
+    # the reader's transport fails in the llcp run loop with each member of the IOError family (Python 3 makes
+    # IOError(errno.ETIMEDOUT) a TimeoutError, IOError(errno.EPIPE) a BrokenPipeError): connect() returns False
+    ({'live': 'llc', 'llcp': {'role': 'initiator', 'connect': 1, 'release': 1}, 'cbs': 'TN', 'term': '00000', 'llcact': 't',
+      'peer': 'sm'}, 'IOError(ETIMEDOUT) in the initiator run loop: False'),
+    ({'live': 'llc', 'llcp': {'role': 'target', 'connect': 1, 'release': 1}, 'cbs': 'TN', 'term': '00000', 'llcact': 't',
+      'peer': 'sq'}, 'IOError(EPIPE) in the target run loop: False'),
+    ({'live': 'dep', 'penv': 'f_dep', 'llcp': {'role': 'initiator', 'connect': 1, 'release': 1, 'acm': False, 'brs': 1},
+      'cbs': 'TN', 'term': '00000', 'xchg': 'oo', 'peer': 'm'}, 'real NFC-DEP initiator: IOError(ETIMEDOUT) from the device: False'),
+    ({'live': 'dep', 'penv': 'rinit', 'llcp': {'role': 'target', 'connect': 1, 'release': 1}, 'cbs': 'TN', 'term': '00000',
+      'peer': 'sm'}, 'real NFC-DEP target: IOError(ETIMEDOUT) from the device: False'),
+    ({'live': 'llc', 'llcp': {'role': 'initiator', 'connect': 1, 'release': 1}, 'cbs': 'TN', 'term': '00000', 'llcact': 't',
+      'peer': 'I'}, 'plain IOError in the run loop: False'),
+    ({'live': 'llc', 'llcp': {'role': 'initiator', 'connect': 1, 'release': 1}, 'cbs': 'TN', 'term': '00000', 'llcact': 't',
+      'peer': 'e'}, 'IOError(ENODEV) in the run loop: False'),
     # no terminate option at all (default lambda: False): the run ends by a return
     ({'rdwr': {'targets': 'A', 'connect': 1, 'iterations': 1}, 'cbs': 'F', 'noterm': 1, 'sense': [['f']], 'tagact': 't'},
      'no terminate option, on-connect false: the tag object is returned'),
@@ -635,7 +649,7 @@ def main():
     #     objects, both roles, idle link and a link on which the application always has the next datagram
     #     queued, the peer answering SYMM / DISC / nothing, terminate() turning true at every step
     lim_llc = dict(LIM_DFS, term=8, cbs=2, llcact=2, peer=6)
-    dom_llc = dict(DOM_DFS, cbs='TF', llcact='tf', peer='sdx')
+    dom_llc = dict(DOM_DFS, cbs='TF', llcact='tf', peer='sdx' + S.IOCODES)
     for role in ('initiator', 'target', None):
         for busy in (1, 0):
             for c, r in ((1, 1), (0, 0)):
@@ -653,7 +667,7 @@ def main():
     #     without Type 4A), 212F tags with and without NFCID2 01FE, a Type B tag, an active-mode target, a remote
     #     initiator; role initiator / target / None, active mode search on / off, bit rate selection 0..2
     lim_dep = dict(LIM_DFS, term=5, cbs=2, xchg=2, peer=3)
-    dom_dep = dict(DOM_DFS, cbs='TF', xchg='oT', peer='sdx')
+    dom_dep = dict(DOM_DFS, cbs='TF', xchg='oT', peer='sdx' + S.IOCODES)
     for penv in ('none', 't1', 't2', 't4a', 'dep106', 't4adep', 'f_tag', 'f_dep', 'tb', 'active', 'rinit'):
         for role in ('initiator', 'target', None):
             for acm in (True, False, None):
@@ -661,6 +675,18 @@ def main():
                     sk = {'live': 'dep', 'penv': penv, 'llcp': {'role': role, 'connect': 1, 'release': 1, 'acm': acm, 'brs': brs}}
                     for res, ev, case in explore(sk, lim_dep, dom_dep, 60 if quick else 3000):
                         observe_connect('live-dep', res, ev, case)
+    # (d) every place where an IOError can reach connect() x every member of the I/O error family
+    fam = S.IOCODES
+    sites = [({'rdwr': {'targets': 'A', 'connect': 1, 'release': 1, 'iterations': 1}}, {'sense': 'nf' + fam}),
+             ({'rdwr': {'targets': 'A', 'connect': 1, 'release': 1, 'iterations': 1}}, {'sense': 'f', 'tagact': 'tn' + fam}),
+             ({'rdwr': {'targets': 'A', 'connect': 1, 'release': 1, 'iterations': 1}}, {'sense': 'f', 'tagact': 't', 'present': 'ny' + fam}),
+             ({'llcp': {'connect': 1, 'release': 1, 'role': None}}, {'llcact': 'ft' + fam}),
+             ({'card': {'startup': 'F', 'connect': 1, 'release': 1}}, {'listen': 'nf' + fam}),
+             ({'card': {'startup': 'F', 'connect': 1, 'release': 1}}, {'listen': 'f', 'cardstep': 'bnc' + fam}),
+             ({'card': {'startup': 'P', 'connect': 1, 'release': 1}}, {'listen': 'f' + fam})]
+    for sk, dom in sites:
+        for res, ev, case in explore(sk, dict(LIM_DFS, term=3, cbs=2), dict(DOM_DFS, cbs='TF', **dom), 400 if quick else 20000):
+            observe_connect('io-family', res, ev, case)
     # ------------------------------------------------------------------ random option dictionaries, long streams
     for _ in range(1500 if quick else 25000):
         sk = random_structure(rng)
